@@ -31,7 +31,7 @@ sec='''
 
 ### 8.1 Sensitivity mutations (written by the check authors, `mutants/<ID>/*.diff`, run with `tools/mutrun`)
 Every diff compiles; most keep the repository's own tests passing (each RESULTS.md says which). "not caught" entries are
-analysed in the RESULTS.md of the property: they are equivalent mutants or outside the property's text. All fourteen
+analysed in the RESULTS.md of the property: they are equivalent mutants or outside the property's text. All twelve
 `fix:` commits of section 5 are caught in the quick tier when reverted (`tools/mutrun -R:<commit> <ID>`).
 
 | property | mutant diffs | RESULTS.md lines mentioning "not caught" | mentioning "thorough only" |
